@@ -14,6 +14,7 @@ import Driver.C16
 import Driver.C20
 import Driver.C11
 import Driver.C15
+import Driver.C09
 /-
   kdriver: one request per line on stdin, `model<TAB>spec` per line on stdout.
   Anything it cannot parse is answered `bad-op<TAB>bad-op` (never a default value).
@@ -45,6 +46,7 @@ def dispatch (line : String) : String :=
       else if op.startsWith "cons." then Driver.C15.handle "cons" (op.drop 5).toString args
       else if op.startsWith "led." then Driver.C15.handle "led" (op.drop 4).toString args
       else if op.startsWith "destr." then Driver.C15.handle "destr" (op.drop 6).toString args
+      else if op.startsWith "rg." then Driver.C09.handle (op.drop 3).toString args
       else none
   match r with
   | some (m, s) => m ++ "\t" ++ s
